@@ -6,6 +6,7 @@ fixes = [l.split(" ", 1) for l in log if " fix:" in " " + l]
 table = [  # (property, subject substring, what failed)
  ("C01", "never roll over a head segment", 'Rollover below the 8-byte V2 header (or an empty Publish right after a rollover): an empty head segment was rolled over onto its own files; Consume(OffsetOldest) failed with "no offset items" or panicked after a later delete (findings/C01-empty-head-rollover*.json)'),
  ("C02", "a Publish that is refused because of one oversized message", "a batch with a message beyond 64 MiB behind valid ones: Publish failed but the messages in front were already in the files and their offsets were handed out again; after a reopen or a delete rewrite the log showed the refused messages, one offset twice, and Get returned the wrong one (findings/C02-refused-batch-prefix-written.json, findings/C01-refused-batch-prefix-written.json)"),
+ ("C03", "Consume with a very large maxCount", "Consume(off, maxCount) allocated maxCount messages up front: math.MaxInt64 panicked (makeslice: len out of range), math.MaxInt32 ended the process with 'out of memory' on a log of two messages (findings/C03-consume-huge-maxcount.json)"),
  ("C12", "deleting from a segment whose index file is missing", 'Delete/DeleteMulti on a segment whose index file was lost and not yet rebuilt failed with "remove index delete: no such file or directory" (findings/C12-delete-missing-index.json)'),
  ("C04", "Get(OffsetNewest) with an empty head", "Get(OffsetNewest) failed with ErrInvalidOffset on a non-empty log whose head segment is empty after a tail delete (findings/C04-get-newest-empty-head.json)"),
  ("C10", "GetByTime with an empty head segment", 'GetByTime/OffsetByTime failed with ErrInvalidOffset ("no time items") while the head segment is empty (findings/C10-getbytime-empty-head.json, findings/C15-findbyage-empty-head.json)'),
